@@ -296,6 +296,12 @@ func TestC17_Sqrt(t *testing.T) {
 
 func TestC17_Cbrt(t *testing.T) {
 	runRapid(t, 60000, 3000000, func(t *rapid.T) {
+		if ir(t, 0, 9, "flat") == 0 {
+			if v, ok := flatCbrtArg(t); ok {
+				c17.Run(t, c17Args{V: v, Cube: true})
+				return
+			}
+		}
 		if ir(t, 0, 4, "lattice") == 0 {
 			if v, ok := latticeCbrtArg(t); ok {
 				c17.Run(t, c17Args{V: v, Cube: true})
@@ -457,4 +463,75 @@ func TestC17_LatticeSelf(t *testing.T) {
 	if hit := count() - before; made < 20 || hit*10 < int64(made)*3 {
 		t.Fatalf("lattice constructor: %d arguments made, only %d with a root within 1e-9 ulp of a midpoint", made, hit)
 	}
+}
+
+// flatCbrtArg constructs cube-root arguments next to 1, 8, 125 (times 1000^q) whose roots miss a rounding
+// midpoint by 1e-17..1e-14 ulp. Around a round root A (1, 2 or 5 times a power of ten) the linear coefficient 3A^2
+// of (A + y)^3 = A^3 + 3A^2 y + 3A y^2 + y^3 is a round number too, so for y = n + 1/2 the fractional part of
+// (A + y)^3 / 10^m is governed by the quadratic and cubic terms alone: solving (3A y^2 + y^3) / 10^m = K + i/8
+// for real y and rounding n puts (A + n + 1/2)^3 within ~sqrt(K) * 1e-17 ulp of a representable argument for the
+// i that suits A. (The lattice of latticeCbrtArg treats the quadratic term as noise and stops at 1e-12; this
+// family is where a first guess or an iteration count that is slightly off shows first: arguments in [1, 1.08).)
+func flatCbrtArg(t *rapid.T) (D, bool) {
+	j := []int{33, 33, 33, 34}[ir(t, 0, 3, "anchor")]
+	a := int64(1)
+	if j == 33 {
+		a = []int64{1, 2, 5}[ir(t, 0, 2, "a")]
+	}
+	A := new(big.Int).Mul(big.NewInt(a), ref.Pow10(j))
+	h0 := new(big.Int).Lsh(A, 1)
+	h0.Add(h0, ref.One)
+	h0c := new(big.Int).Exp(h0, big.NewInt(3), nil)
+	m := 60
+	M := new(big.Int)
+	for {
+		M.Mul(big.NewInt(8), ref.Pow10(m))
+		if new(big.Int).Quo(h0c, M).Cmp(ref.Cmax) <= 0 {
+			break
+		}
+		m++
+	}
+	K := int64(ir(t, 1, 2000, "K"))
+	if ir(t, 0, 3, "bigK") == 0 {
+		K = int64(ir(t, 2000, 4000000, "Kbig"))
+	}
+	i8 := int64(ir(t, 0, 7, "i8"))
+	// target T = (8K + i8) * 10^m / 8 ; solve 3A y^2 + y^3 = T by Newton from y0 = sqrt(T / 3A), in units of 1/2:
+	// with z = 2y (so that y = n + 1/2 means z odd): 3A z^2 / 4 + z^3 / 8 = T  <=>  6A z^2 + z^3 = 8T
+	T8 := new(big.Int).Mul(big.NewInt(8*K+i8), ref.Pow10(m)) // = 8T
+	z := new(big.Int).Sqrt(new(big.Int).Quo(T8, new(big.Int).Mul(big.NewInt(6), A)))
+	for it := 0; it < 6; it++ {
+		z2 := new(big.Int).Mul(z, z)
+		f := new(big.Int).Mul(new(big.Int).Mul(big.NewInt(6), A), z2)
+		f.Add(f, new(big.Int).Mul(z2, z))
+		f.Sub(f, T8)
+		fp := new(big.Int).Mul(new(big.Int).Mul(big.NewInt(12), A), z)
+		fp.Add(fp, new(big.Int).Mul(big.NewInt(3), z2))
+		if fp.Sign() == 0 {
+			return D{}, false
+		}
+		z.Sub(z, new(big.Int).Quo(f, fp))
+	}
+	if z.Bit(0) == 0 {
+		z.Add(z, bi(int64(2*ir(t, 0, 1, "up")-1)))
+	}
+	if z.Sign() <= 0 {
+		return D{}, false
+	}
+	h := new(big.Int).Add(new(big.Int).Lsh(A, 1), z) // 2(A + n) + 1
+	hc := new(big.Int).Exp(h, big.NewInt(3), nil)
+	cp := new(big.Int).Mod(hc, M)
+	if new(big.Int).Lsh(cp, 1).Cmp(M) > 0 {
+		cp.Sub(cp, M)
+	}
+	d := new(big.Int).Sub(hc, cp)
+	d.Quo(d, M)
+	if d.Sign() <= 0 || d.Cmp(ref.Cmax) > 0 {
+		return D{}, false
+	}
+	q := -j // the argument itself next to 1, 8 or 125
+	if ir(t, 0, 2, "scaled") == 0 {
+		q = ir(t, (ref.Emin-m)/3+1, (ref.Emax-m)/3-1, "q")
+	}
+	return DFin(genSign(t), d, m+3*q), true
 }
